@@ -83,7 +83,7 @@ func Run(run *vh.Run) {
 		"secp256k1/ECDSA, Keccak-256, HMAC-SHA512 and PBKDF2 primitives of btcec, x/crypto and the Go standard library are correct (they are the oracle side)",
 		"cosmos-sdk crypto/hd (ComputeMastersFromSeed, DerivePrivateKeyForPath) is the BIP-32 reference; it is itself checked here against BIP-32 test vectors 1-4 and BIP-39 TREZOR vectors",
 		"negligible-probability events (IL >= n in BIP-32, a random (r,s) being a valid signature, Keccak collisions) do not occur",
-		"the recovery byte v, the (r, n-s) twin and fee granter / fee payer / timeout height / tip are not key-or-message binding resp. not fields listed by the property: measured and reported, never counted as violations",
+		"the recovery byte v and the (r, n-s) twin are not key-or-message binding: measured and reported, never counted as violations; transaction fields the statement does not list by name (fee granter / payer, tip, timeout height, extension options) are judged by its conclusion: a rendering may refuse them but may not drop them",
 		"perturbed documents the encoder refuses (extra fields, several signers, unsupported body fields, invalid chain id) have no EIP-712 rendering; for them only 'the signature must not verify' is asserted",
 	)
 	if u := uncoveredFields(); len(u) > 0 {
@@ -98,6 +98,7 @@ func Run(run *vh.Run) {
 	run.Set("message_kinds", kn)
 
 	ifaceRegistry = c.Enc.InterfaceRegistry
+	runCLIKeyRoundTrip(run, c.Enc)
 	ke := &keyEnv{run: run, enc: c.Enc}
 	he := &hdEnv{run: run, enc: c.Enc}
 	de := &docEnv{run: run, enc: c.Enc, idx: newHashIndex()}
@@ -156,6 +157,7 @@ func Run(run *vh.Run) {
 	for _, cls := range []string{"msg-bit:rs", "sig-r-bit:rsv", "sig-s-bit:rs", "key-other:rsv", "key-negated:rs"} {
 		run.Floor("signature perturbation "+cls, run.Get("sig.rejected:"+cls), scale(q(1400, 70000)))
 	}
+	run.Floor("key round trips through the keys export / import commands", run.Get("enc.roundtrip-ok:cli-export-import"), scale(q(60, 1100)))
 	run.Floor("encoding round trips", ke.encOK.Load(), scale(q(3000*13/2, 150000*13/2)))
 	for _, f := range formats {
 		base, grp := q(700, 28000), q(300, 12000)
